@@ -3,6 +3,7 @@
 //   B <hex> ...    tokenize the bytes (C string: cut at the first NUL), print every token with its own
 //                  print(), join with ' ', tokenize again:   R B <toks>|<printed hex>|<toks>
 //   Q tok tok ...  build the token objects, print them joined with ' ', tokenize:  R Q <toks>|<printed hex>
+//   L <hex> ...    tokenize "//" + bytes + newline + "x1":   R L <toks>
 //   H <hex> ...    tokenizer_t::getHeader() on the bytes:     R H <header hex>|<cursor offset>
 // token syntax: I<hex> identifier, P<hex> primitive (source text), O<hex> operator symbol, N newline,
 //   C<enc>.<hex>.<hexudf> char, S<enc>.<hex>.<hexudf> string, K<hex> comment, U<hex> unknown (its byte)
@@ -177,6 +178,15 @@ int main() {
       freeTokenVector(t1);
       freeTokenVector(t2);
       for (cbuf *c : keep) delete c;
+    } else if (kind == "L") {
+      std::string h;
+      while (ss >> tok) h += tok;
+      const std::string src = "//" + unhex(h) + "\nx1";
+      cbuf b(src);
+      tokenVector t1;
+      tokenizeBuf(b.p, t1);
+      out << "L " << showTokens(t1);
+      freeTokenVector(t1);
     } else if (kind == "H") {
       std::string h;
       while (ss >> tok) h += tok;
